@@ -30,6 +30,7 @@ func init() {
 		"io/ioutil.ReadDir": "ReadDir", "io/ioutil.ReadFile": "ReadFile", "io/ioutil.WriteFile": "WriteFile",
 		"os.ReadFile": "ReadFile", "os.WriteFile": "WriteFile",
 		"path/filepath.Abs": "Abs", "path/filepath.Walk": "Walk",
+		"os.IsNotExist": "IsNotExist", "os.IsExist": "IsExist", "os.ReadDir": "ReadDirEntries",
 	} {
 		redirect(from, to)
 	}
